@@ -783,6 +783,29 @@ func c13HandlerSuite(t *testing.T, out *zzverif.Out) {
 				out.Case(hop, "ok "+zzverif.Hex([]byte(p)))
 			}
 			out.Count("handler_names_valid")
+			// the lookup every handler applies next: each part of its result is the request's part or the same-kind part of
+			// a name the store holds (the relation ExistingResult of handler_name_confined), and the result is valid
+			if r, rerr := getExistingName(n); rerr == nil {
+				ex, _ := Manifests(true)
+				okPart := func(get func(model.Name) string) bool {
+					if get(r) == get(n) {
+						return true
+					}
+					for e := range ex {
+						if get(e) == get(r) {
+							return true
+						}
+					}
+					return false
+				}
+				if !okPart(func(x model.Name) string { return x.Host }) || !okPart(func(x model.Name) string { return x.Namespace }) ||
+					!okPart(func(x model.Name) string { return x.Model }) || !okPart(func(x model.Name) string { return x.Tag }) || !r.IsValid() {
+					out.L2("existing-name-foreign-part", hop, "getExistingName returned "+zzverif.C13Fields(r.Host, r.Namespace, r.Model, r.Tag))
+				}
+				if r != n {
+					out.Count("handler_existing_renamed")
+				}
+			}
 			if q := filepath.Join(store, "manifests", n.Filepath()); q != p {
 				out.L2("handler-paths-disagree", hop, "GetModel would open "+p+", ParseNamedManifest "+q)
 			}
